@@ -3,6 +3,6 @@ from . import pjaxr
 
 EXPLANATION = ("Who-may-bind rule for sample_p/adev_sample_p, must-carry rule for the lowering exception, guard shape of the lowering rule and of the "
                "sample batch rule, single-writer rule for the two global flags, and exhaustiveness of Seed's fall-through.")
-RULES = [pjaxr.lowering_guard_terms, pjaxr.sample_bind_terms, pjaxr.vmap_context_guard_terms, pjaxr.seed_fallthrough_events, pjaxr.nested_jaxpr_seeded_events,
+RULES = [pjaxr.lowering_guard_terms, pjaxr.sample_bind_terms, pjaxr.sample_transform_rules, pjaxr.vmap_context_guard_terms, pjaxr.seed_fallthrough_events, pjaxr.nested_jaxpr_seeded_events,
          pjaxr.dummy_protocol_events, pjaxr.dispatch_sets_events]
 FLOOR = 10
